@@ -26,7 +26,8 @@ for d in sorted(os.listdir(os.path.join(V, "seeded"))):
     for k, v in sorted(meta.get("verdicts", {}).items()):
         kinds = sorted({re.sub(r"^\s*\[\w+\]\s*", "", l).split(":")[0] for l in v["lines"] if l.startswith("  [")})
         verdict.append(f"{k.split('@')[0]}: exit {v['exit']}" + (f" ({', '.join(kinds)[:80]})" if kinds else ""))
-    rows.append((d, meta["property"], ", ".join(files), needs, ", ".join(meta.get("caught_by", [])) or "MISSED", "; ".join(verdict)))
+    reported = ", ".join(meta.get("caught_by", [])) or ("superseded (see meta.json)" if meta.get("status") == "superseded" else "MISSED")
+    rows.append((d, meta["property"], ", ".join(files), needs, reported, "; ".join(verdict)))
 
 with open(os.path.join(V, "seeded", "README.md"), "w") as f:
     f.write("# Independently seeded changes\n\nEach directory holds `patch.diff` (applies to /repo HEAD), `demo.py` (exits 0 on the clean tree, "
@@ -37,6 +38,7 @@ with open(os.path.join(V, "seeded", "README.md"), "w") as f:
     for r in rows:
         f.write("| " + " | ".join(r) + " |\n")
     n = len(rows)
-    c = sum(1 for r in rows if r[4] != "MISSED")
-    f.write(f"\n{c} of {n} reported by the check of the property they were written against (quick tier, seed 1).\n")
+    c = sum(1 for r in rows if r[4] != "MISSED" and not r[4].startswith("superseded"))
+    sup = sum(1 for r in rows if r[4].startswith("superseded"))
+    f.write(f"\n{c} of {n} reported by a check (quick tier, seed 1); {sup} superseded by a repair of /repo; {n - c - sup} missed.\n")
 print(f"{len(rows)} rows")
